@@ -619,7 +619,7 @@ func TestIPTable(t *testing.T) {
 func TestRandomTyped(t *testing.T) {
 	ev.SetChecks(ev.Scale(20000, 2000000))
 	maxDepth := ev.Pick(5, 7)
-	rapid.Check(t, func(rt *rapid.T) {
+	ev.Check(t, func(rt *rapid.T) {
 		o := gen.DefaultExprOpts
 		o.Val.MappedIP = !ev.KnownOpen("C01", "ipv4-mapped-loopback-multicast")
 		w := gen.GenWorld(rt, 5, o.Val)
@@ -633,7 +633,7 @@ func TestRandomTyped(t *testing.T) {
 
 func TestRandomUntyped(t *testing.T) {
 	ev.SetChecks(ev.Scale(8000, 800000))
-	rapid.Check(t, func(rt *rapid.T) {
+	ev.Check(t, func(rt *rapid.T) {
 		o := gen.DefaultExprOpts
 		o.SlipPct = 45
 		o.BadFuncPct = 8
@@ -672,6 +672,9 @@ func TestReplay(t *testing.T) {
 	}
 	if err != nil {
 		t.Fatal(err)
+	}
+	if ev.ReplayFuzz(t, rf, fuzzProps, nil) {
+		return
 	}
 	var c Case
 	if err := json.Unmarshal(rf.Case, &c); err != nil || c.Expr == nil {
